@@ -44,12 +44,16 @@ def defects_back():
         P("D01-back", "C03", d + "01-6f554be.revert.diff", "C03-RC"),
         P("D02-back", "C03", d + "02-3a47dc4.revert.diff", "C03-RZ"),
         P("D17-back", "C01", d + "03-a6fb6b6.revert.diff", "C01-S"),
-        R("D05-back", "C13", QUAD, "                             bck_options=ctx.bck_config, **ctx.bck_config)",
-          "                             fwd_options=ctx.bck_config, bck_options=ctx.bck_config)", ["C13-K", "AC5"],
+        R("D05-back", "C13", QUAD, "                         bck_options=ctx.bck_config, **ctx.bck_config)",
+          "                         fwd_options=ctx.bck_config, bck_options=ctx.bck_config)", ["C13-K", "AC5"],
           note="the reverse patch of 95f34c2 no longer applies after 9c5a2e8 re-indented the call"),
         P("D06-back", "C13", d + "05-a9a1c0e.revert.diff", "C13-I"),
-        P("D08-back", "C13", d + "06-9c5a2e8.revert.diff", "C13-Z"),
-        P("D07-back", "C13", d + "07-467c3b6.revert.diff", "AC4"),
+        dict(id="D08-back", prop="C13", expect_rule="C13-Z", note="the reverse patch of 9c5a2e8 no longer applies after 7dd7e2e restructured backward", edits=[
+            dict(file=QUAD, old="        nxlxu = len(ctx.saved_tensors) - ntensor_params\n        tensor_params = ctx.saved_tensors[nxlxu:]", new="        tensor_params = ctx.saved_tensors[-ntensor_params:]"),
+            dict(file=QUAD, old="            xlxu_tensor = ctx.saved_tensors[:nxlxu]", new="            xlxu_tensor = ctx.saved_tensors[:-ntensor_params]")]),
+        dict(id="D07-back", prop="C13", expect_rule="AC4", note="the reverse patch of 467c3b6 no longer applies after 7dd7e2e restructured backward", edits=[
+            dict(file=QUAD, old="                                        allow_unused=True,\n", new=""),
+            dict(file=QUAD, old="            # tensors that do not influence the integrand get a zero gradient\n            dfdts = convert_none_grads_to_zeros(dfdts, tparams)\n", new="")]),
         P("D09-back", "C16", d + "08-1bb713b.revert.diff", ["C16-U", "C16-S", "C16-N"]),
         P("D10-back", "C16", d + "09-8233665.revert.diff", ["C16-U", "C16-B"]),
         P("D12-back", "C16", d + "10-499e7ae.revert.diff", "AC4"),
@@ -62,6 +66,10 @@ def defects_back():
         P("D11-back", "C15", d + "17-3d1385c.revert.diff", "C15-D"),
         P("D18-back", "C15", d + "18-105611d.revert.diff", "C15-D"),
         P("D16-back", "C10", d + "19-4fea7e8.revert.diff", "C10-P"),
+        P("D19-back", "C04", d + "20-56e83c8.revert.diff", "SUB-A"),
+        P("D20-back", "C13", d + "21-7dd7e2e.revert.diff", "AC13"),
+        P("D21-back", "C08", d + "22-df82b20.revert.diff", "AC13"),
+        P("D22-back", "C16", d + "23-3c2ffbe.revert.diff", "AC13"),
     ]
 
 
@@ -195,12 +203,12 @@ def c13():
         R("c13-xu-at-xl", "C13", QUAD, "            grad_xu = torch.dot(grad_ys.reshape(-1), fcn(xu, *params).reshape(-1)", "            grad_xu = torch.dot(grad_ys.reshape(-1), fcn(xl, *params).reshape(-1)", "C13-L"),
         R("c13-gate-swapped", "C13", QUAD, "                                 ).reshape(xl.shape) if ctx.xltensor else None", "                                 ).reshape(xl.shape) if ctx.xutensor else None", "C13-L"),
         R("c13-unpack-swapped", "C13", QUAD, "            if ctx.xltensor and ctx.xutensor:\n                xl, xu = xlxu_tensor", "            if ctx.xltensor and ctx.xutensor:\n                xu, xl = xlxu_tensor", "C13-L"),
-        R("c13-no-create-graph", "C13", QUAD, "                                            create_graph=torch.is_grad_enabled())\n                # tensors that", "                                            create_graph=False)\n                # tensors that", "AC3"),
-        R("c13-no-none-conversion", "C13", QUAD, "                dfdts = convert_none_grads_to_zeros(dfdts, tensor_params)\n", "", "AC4"),
-        R("c13-grad-for-nparams-slot", "C13", QUAD, "            return (None, grad_xl, grad_xu, None, None, None, None, None, *grad_params)", "            return (None, grad_xl, grad_xu, None, None, grad_xu, None, None, *grad_params)", "AC2"),
+        R("c13-no-create-graph", "C13", QUAD, "                                        create_graph=torch.is_grad_enabled())\n            # tensors that", "                                        create_graph=False)\n            # tensors that", "AC3"),
+        R("c13-no-none-conversion", "C13", QUAD, "            dfdts = convert_none_grads_to_zeros(dfdts, tparams)\n", "", "AC4"),
+        R("c13-grad-for-nparams-slot", "C13", QUAD, "        return (None, grad_xl, grad_xu, None, None, None, None, None, *grad_params)", "        return (None, grad_xl, grad_xu, None, None, grad_xu, None, None, *grad_params)", "AC2"),
         R("c13-quad-drops-objparams", "C13", QUAD, "        return _Quadrature.apply(pfunc, xl, xu, fwd_options, bck_options, nparams,\n                                 dtype, device, *params, *pfunc.objparams())",
           "        return _Quadrature.apply(pfunc, xl, xu, fwd_options, bck_options, nparams,\n                                 dtype, device, *params)", "AC6"),
-        R("c13-bck-options-only", "C13", QUAD, "                             bck_options=ctx.bck_config, **ctx.bck_config)", "                             bck_options=ctx.bck_config)", "AC5"),
+        R("c13-bck-options-only", "C13", QUAD, "                         bck_options=ctx.bck_config, **ctx.bck_config)", "                         bck_options=ctx.bck_config)", "AC5"),
         R("c13-negative-slice-back", "C13", QUAD, "        tensor_params = ctx.saved_tensors[nxlxu:]", "        tensor_params = ctx.saved_tensors[-ntensor_params:]", "C13-Z"),
     ]
 
@@ -300,7 +308,7 @@ def c19():
         R("c19-ctx-output-rootfinder", "C19", RF, "        ctx.fcn = fcn\n\n        # split tensors and non-tensors params", "        ctx.fcn = fcn\n        ctx.y = y\n\n        # split tensors and non-tensors params", "AC8"),
         R("c19-ctx-output-tuple-symeig", "C19", SYM, "        ctx.na = na\n        ctx.A = A\n        ctx.M = M\n        return evals, evecs", "        ctx.na = na\n        ctx.A = A\n        ctx.M = M\n        ctx.eig = (evals, evecs)\n        return evals, evecs", "AC8"),
         R("c19-global-cache", "C19", FQ, "def leggauss(fcn, xl, xu, params, n=100, **unused):", "_lg_cache = {}\n\n\ndef leggauss(fcn, xl, xu, params, n=100, **unused):\n    _lg_cache[n] = xu", "C19-G"),
-        R("c19-recursive-closure", "C19", QUAD, "            def new_fcn(x, *grad_y_params):\n                grad_ys = grad_y_params[0]\n", "            def new_fcn(x, *grad_y_params):\n                grad_ys = grad_y_params[0]\n                _self = new_fcn\n", "C19-R"),
+        R("c19-recursive-closure", "C19", QUAD, "        def new_fcn(x, *grad_y_params):\n            grad_ys = grad_y_params[0]\n", "        def new_fcn(x, *grad_y_params):\n            grad_ys = grad_y_params[0]\n            _self = new_fcn\n", "C19-R"),
     ]
 
 
